@@ -436,7 +436,13 @@ func evalAr(b []byte, conv int) (fs []finding, class string) {
 }
 
 // evalLoad runs the deb.Load oracle on b.
-func evalLoad(b []byte, conv int) (fs []finding, class string) {
+func evalLoad(b []byte, conv int) (fs []finding, class string) { return evalLoadText(b, conv, false) }
+
+// evalLoadText: with text=true the error TEXT of the two loads (the second one under reversed map orders on the
+// instrumented build) must agree as well. Used only for inputs whose ar layer is intact: there the message says which
+// defect of the package was met, and that must not depend on the order a map happens to be walked in. (For broken ar
+// headers parseArEntry names whichever bad column its map yields first - known, harmless, and not compared.)
+func evalLoadText(b []byte, conv int, text bool) (fs []finding, class string) {
 	seen := map[string]bool{}
 	add := func(f finding) {
 		if !seen[f.clause] {
@@ -467,6 +473,8 @@ func evalLoad(b []byte, conv int) (fs []finding, class string) {
 	if o2.Res != o.Res || o2.CtlExt != o.CtlExt || o2.DataExt != o.DataExt || o2.Pkg != o.Pkg || !sameMem(o.Mem, o2.Mem) {
 		add(finding{"deterministic", fmt.Sprintf("same outcome twice: %s control%s data%s package=%q members=%d", o.Res, o.CtlExt, o.DataExt, o.Pkg, len(o.Mem)),
 			fmt.Sprintf("second load: %s control%s data%s package=%q members=%d | first: %s | second: %s", o2.Res, o2.CtlExt, o2.DataExt, o2.Pkg, len(o2.Mem), descMem(o.Mem), descMem(o2.Mem))})
+	} else if text && o.Res == "error" && o.msg != o2.msg {
+		add(finding{"deterministic", "same error on every load of the same bytes: " + o.msg, "second load (" + MapOrderNote + "): " + o2.msg})
 	}
 	return
 }
@@ -477,6 +485,9 @@ func eval(b []byte, conv int, via string) ([]finding, string) {
 	}
 	if via == "load" {
 		return evalLoad(b, conv)
+	}
+	if via == "load+text" {
+		return evalLoadText(b, conv, true)
 	}
 	return evalAr(b, conv)
 }
@@ -500,7 +511,7 @@ func check(scen string, in In) []*mc.Violation {
 	if err != nil {
 		return nil
 	}
-	if in.Via != "load" && !isFileVia(in.Via) {
+	if in.Via != "load" && in.Via != "load+text" && !isFileVia(in.Via) {
 		in.Via = "ar"
 	}
 	fs, _ := eval(b, in.Conv, in.Via)
